@@ -254,8 +254,25 @@ pub trait Subject: Sync {
     fn lex(&self, which: u8, src: &[u8], mode: Mode) -> Obs;
 }
 
+/// Progress bookkeeping for the hang watchdog (see drivers::start_watchdog).
+pub static PROGRESS: std::sync::atomic::AtomicU64 = std::sync::atomic::AtomicU64::new(0);
+pub static CURRENT: std::sync::Mutex<Option<(usize, u8, Vec<u8>, bool)>> = std::sync::Mutex::new(None);
+
 /// Run a subject catching panics (reported as an anomaly; a panic message is deterministic).
 pub fn lex_catch(s: &dyn Subject, which: u8, src: &[u8], mode: Mode) -> Obs {
+    PROGRESS.fetch_add(1, std::sync::atomic::Ordering::Relaxed);
+    if let Ok(mut c) = CURRENT.lock() {
+        match c.as_mut() {
+            Some(cur) => {
+                cur.0 = s.index();
+                cur.1 = which;
+                cur.2.clear();
+                cur.2.extend_from_slice(src);
+                cur.3 = mode.partial;
+            }
+            None => *c = Some((s.index(), which, src.to_vec(), mode.partial)),
+        }
+    }
     match catch_unwind(AssertUnwindSafe(|| s.lex(which, src, mode))) {
         Ok(o) => o,
         Err(p) => {
